@@ -157,6 +157,7 @@ type exRec struct {
 	// request was sent through
 	layer            int
 	tlsSeen, tlsWant tlsView
+	hijView          tlsView // the TLS session of the connection a hijacker was handed
 	// early-answering origin (early.go)
 	earlyErr string
 }
@@ -249,7 +250,7 @@ func (w *world) reqmod() martian.RequestModifier {
 			conn, brw, err := ctx.Session().Hijack()
 			if err == nil {
 				w.mu.Lock()
-				r.hij = connKind(conn)
+				r.hij, r.hijView = connKind(conn), connView(conn)
 				w.mu.Unlock()
 				hijackReply(conn, brw)
 			}
@@ -288,7 +289,7 @@ func (w *world) resmod() martian.ResponseModifier {
 			conn, brw, err := ctx.Session().Hijack()
 			if err == nil {
 				w.mu.Lock()
-				r.hij = connKind(conn)
+				r.hij, r.hijView = connKind(conn), connView(conn)
 				w.mu.Unlock()
 				hijackReply(conn, brw)
 			}
@@ -1103,9 +1104,14 @@ func (e *Ex) report(open bool, left int, probeID string) core.Result {
 		if r.got {
 			st, cm, cp = strconv.Itoa(r.st), b01(r.cm), b01(r.cp)
 		}
-		hij := "-"
+		hij := "-,htid=-"
 		if r.hij != "" {
 			hij = r.hij
+			if r.hij == "raw" || r.hij == "tls" {
+				hij += fmt.Sprintf(",htid=%d", layerOfSNI(r.hijView.sni))
+			} else {
+				hij += ",htid=-"
+			}
 		}
 		// which TLS session the request was attributed to (0 = none), and the wire attributes of the
 		// response a non-CONNECT exchange delivered
@@ -1273,6 +1279,9 @@ func (e *Ex) report(open bool, left int, probeID string) core.Result {
 			}
 			if hijackedHere && r.hij != "tls" {
 				failf("c05:hijack-raw-conn", "tunnelled request %d: hijacker was handed the raw connection", idx)
+			}
+			if hijackedHere && r.hij == "tls" && r.tlsWant.ok && !r.hijView.same(r.tlsWant) {
+				failf("c05:hijack-other-session", "tunnelled request %d was decrypted from TLS session %d (%s) but the hijacker was handed the connection of another session (%s)", idx, r.layer, r.tlsWant, r.hijView)
 			}
 		}
 		// ... and the TLS state attached is the state of the session the request was decrypted from - on
